@@ -26,7 +26,7 @@ func init() {
 		Assumptions: []string{"cancellation granularity is the hook points plus the block fetch", "the final request's blocks are fetchable (links up, no fault)"},
 		Cases:       c11Cases,
 		Run:         c11Run,
-		MinDistinct: map[string]int{"quick": 30, "thorough": 250},
+		MinDistinct: map[string]int{"quick": 25, "thorough": 150},
 		Batch:       8,
 		CaseTimeout: 180 * time.Second,
 		Explain:     "oracle: after the final uncancelled Sync and rest, the replica holds the full closure (over next) of the final heads; negative verdict only at confirmed rest.",
